@@ -2,6 +2,7 @@
 from __future__ import annotations
 
 import itertools
+import json
 from fractions import Fraction
 
 import numpy as np
@@ -10,6 +11,84 @@ import gen
 from common import PropertyCheck, Skip, load_autoarray, q, qlist
 
 CORNERS = [(1, 0), (0, 0), (1, 1), (0, 1)]
+
+# -- round-4 hardening: memory layout / writability / byte order of the ndarrays handed to the library.
+#    All of these hold EQUAL values; only strides, flags and byte order differ.
+LAYS2 = ("C", "C", "F", "T", "neg", "negy", "negx", "strided", "stridedF", "window", "ro", "roF", "be",
+         "unaligned")
+LAYS1 = ("C", "neg", "strided", "window", "ro", "be", "unaligned")
+
+
+def _relayout(a, lay):
+    """an ndarray equal to `a` (same shape, dtype kind and values) with another memory layout:
+    F = Fortran order, T = transposed view of a C buffer, neg* = negatively strided views, strided* = a
+    non-contiguous slice (steps in both axes) of a larger C / Fortran buffer, window = contiguous rows
+    inside a larger buffer, ro* = read-only, be = big-endian dtype, unaligned = odd byte offset."""
+    a = np.array(a)
+    if lay in (None, "C") or a.size == 0:
+        return a
+    if a.ndim == 1:
+        n = a.shape[0]
+        if lay in ("neg", "negy", "negx", "F", "T"):
+            out = a[::-1].copy()[::-1]
+        elif lay in ("strided", "stridedF"):
+            big = np.full(3 * n + 4, -77, dtype=a.dtype)
+            big[2:2 + 3 * n:3] = a
+            out = big[2:2 + 3 * n:3]
+        elif lay == "window":
+            big = np.full(n + 5, -77, dtype=a.dtype)
+            big[2:2 + n] = a
+            out = big[2:2 + n]
+        elif lay in ("ro", "roF"):
+            out = a.copy()
+            out.setflags(write=False)
+        elif lay == "be":
+            out = a.astype(a.dtype.newbyteorder(">"))
+        elif lay == "unaligned":
+            buf = np.zeros(a.nbytes + 1, dtype=np.uint8)
+            out = buf[1:].view(a.dtype)
+            out[...] = a
+        else:
+            raise ValueError(lay)
+        assert out.shape == a.shape and np.array_equal(out, a)
+        return out
+    h, w = a.shape
+    if lay == "F":
+        out = np.asfortranarray(a)
+    elif lay == "T":
+        out = np.ascontiguousarray(a.T).T
+    elif lay == "neg":
+        out = a[::-1, ::-1].copy()[::-1, ::-1]
+    elif lay == "negy":
+        out = a[::-1].copy()[::-1]
+    elif lay == "negx":
+        out = a[:, ::-1].copy()[:, ::-1]
+    elif lay in ("strided", "stridedF"):
+        big = np.full((2 * h + 3, 3 * w + 4), -77, dtype=a.dtype)
+        if lay == "stridedF":
+            big = np.asfortranarray(big)
+        big[1:1 + 2 * h:2, 2:2 + 3 * w:3] = a
+        out = big[1:1 + 2 * h:2, 2:2 + 3 * w:3]
+    elif lay == "window":
+        big = np.full((h + 3, w + 5), -77, dtype=a.dtype)
+        big[1:1 + h, 2:2 + w] = a
+        out = big[1:1 + h, 2:2 + w]
+    elif lay == "ro":
+        out = a.copy()
+        out.setflags(write=False)
+    elif lay == "roF":
+        out = np.asfortranarray(a)
+        out.setflags(write=False)
+    elif lay == "be":
+        out = a.astype(a.dtype.newbyteorder(">"))
+    elif lay == "unaligned":
+        buf = np.zeros(a.nbytes + 1, dtype=np.uint8)
+        out = buf[1:].view(a.dtype).reshape(a.shape)
+        out[...] = a
+    else:
+        raise ValueError(lay)
+    assert out.shape == a.shape and np.array_equal(out, a)
+    return out
 
 
 def _intervals(n):
@@ -47,6 +126,514 @@ def _valid2(r):
 
 def _valid1(r):
     return min(r) >= 0 and r[0] < r[1]
+
+
+# ======================================================================================================
+# Round-4 hardening, part 2: HISTORIES on real, reused objects (Layout2D, Header / Array2D, Region2D)
+# ======================================================================================================
+UNSPEC = "<outside the statement>"
+NO_OBJ = {"err": "no_object"}
+BAD = {"err": "bad_region"}
+NAMES3 = ("parallel_overscan", "serial_prescan", "serial_overscan")
+TAINT = "<tainted>"
+
+
+def _inside(r, h, w):
+    return r is None or (_valid2(r) and r[1] <= h and r[3] <= w)
+
+
+def _overlap_in_window(r, e):
+    ov = [max(r[0], e[0]), min(r[1], e[1]), max(r[2], e[2]), min(r[3], e[3])]
+    if ov[0] >= ov[1] or ov[2] >= ov[3]:
+        return None
+    return [ov[0] - e[0], ov[1] - e[0], ov[2] - e[2], ov[3] - e[2]]
+
+
+def _reflect(reg, h, w, corner):
+    y0, y1, x0, x1 = reg
+    corner = tuple(corner)
+    if corner in ((0, 0), (0, 1)):
+        y0, y1 = h - y1, h - y0
+    if corner in ((1, 1), (0, 1)):
+        x0, x1 = w - x1, w - x0
+    return [y0, y1, x0, x1]
+
+
+class _Shadow:
+    """What every step of a history must return, stated on plain lists for FRESH objects in the state the
+    earlier steps produced (flips by list reversal, overlap by max/min, reflection arithmetic).  A step whose
+    inputs leave the property's quantifier (a region outside its frame) yields UNSPEC and taints what it
+    creates; the Lean model still mirrors those."""
+
+    def __init__(self, arrays):
+        self.arrays = [[[q(Fraction(v)) for v in a["values"][y * a["w"]:(y + 1) * a["w"]]]
+                        for y in range(a["h"])] for a in arrays]
+        self.L, self.H, self.A, self.R = {}, {}, {}, {}
+
+    @staticmethod
+    def view(l):
+        return {"regions": [None if r is None else list(r) for r in l["regions"]], "roe": list(l["roe"]),
+                "shape": list(l["shape"])}
+
+    def _reg(self, x):
+        if isinstance(x, dict):
+            return self.R.get(x["ref"])
+        return None if x is None else list(x)
+
+    def step(self, st):
+        s = st["s"]
+        if s == "new":
+            regs = [self._reg(x) for x in st["regions"]]
+            h, w = st["shape"]
+            if st["via"] == "ctor":
+                if all(r is None or _valid2(r) for r in regs):
+                    self.L[st["dst"]] = {"shape": [h, w], "roe": list(st["corner"]), "regions": regs}
+                    return self.view(self.L[st["dst"]])
+                self.L[st["dst"]] = None
+                return dict(BAD)
+            if all(_inside(r, h, w) for r in regs):
+                self.L[st["dst"]] = {"shape": [h, w], "roe": list(st["corner"]),
+                                     "regions": [None if r is None else _reflect(r, h, w, st["corner"]) for r in regs]}
+                return self.view(self.L[st["dst"]])
+            self.L[st["dst"]] = TAINT
+            return UNSPEC
+        if s in ("rot", "ext", "copy"):
+            src = self.L.get(st["src"])
+            if src is None:
+                self.L[st["dst"]] = None
+                return dict(NO_OBJ)
+            if src == TAINT:
+                self.L[st["dst"]] = TAINT
+                return UNSPEC
+            h, w = src["shape"]
+            if s == "copy":
+                self.L[st["dst"]] = {"shape": [h, w], "roe": list(src["roe"]),
+                                     "regions": [None if r is None else list(r) for r in src["regions"]]}
+                return "ok"
+            if s == "rot":
+                if not all(_inside(r, h, w) for r in src["regions"]):
+                    self.L[st["dst"]] = TAINT
+                    return UNSPEC
+                new = {"shape": [h, w], "roe": list(st["corner"]),
+                       "regions": [None if r is None else _reflect(r, h, w, st["corner"]) for r in src["regions"]]}
+            else:
+                e = st["window"]
+                new = {"shape": [h, w], "roe": list(src["roe"]),
+                       "regions": [None if r is None else _overlap_in_window(r, e) for r in src["regions"]]}
+            self.L[st["dst"]] = new
+            return self.view(new)
+        if s in ("read", "set", "set_roe", "orient", "decoy", "fault"):
+            src = self.L.get(st["src"])
+            if src is None:
+                return dict(NO_OBJ) if s not in ("decoy", "fault") else "ok"
+            if s in ("decoy", "fault"):
+                return "ok"
+            if src == TAINT:
+                return UNSPEC
+            if s == "read":
+                return self.view(src)
+            if s == "set":
+                src["regions"][st["name"]] = None if st["region"] is None else list(st["region"])
+                return "ok"
+            if s == "set_roe":
+                src["roe"] = list(st["corner"])
+                return "ok"
+            rows = self.arrays[st["arr"]]
+            fl = _flip(rows, src["roe"])
+            out = {"rows": fl, "po": None, "so": None}
+            if st["extract"]:
+                for key, idx in (("po", 0), ("so", 2)):
+                    if src["regions"][idx] is not None:
+                        out[key] = _sl(fl, src["regions"][idx])
+            return out
+        if s in ("hnew", "hset"):
+            self.H[st["dst"] if s == "hnew" else st["src"]] = list(st["corner"])
+            return "ok"
+        if s == "anew":
+            self.A[st["dst"]] = {"rows": [list(r) for r in self.arrays[st["arr"]]], "hdr": st["hdr"]}
+            return "ok"
+        if s in ("aread", "aset", "adecoy", "afault"):
+            a = self.A.get(st["src"])
+            if s in ("adecoy", "afault"):
+                return "ok"
+            if a is None:
+                return dict(NO_OBJ)
+            if s == "aset":
+                a["rows"][st["y"]][st["x"]] = q(Fraction(st["value"]))
+                return "ok"
+            return _flip(a["rows"], self.H[a["hdr"]])
+        if s == "rnew":
+            r = list(st["region"])
+            self.R[st["dst"]] = r if _valid2(r) else None
+            return r if _valid2(r) else dict(BAD)
+        if s == "rset":
+            self.R[st["src"]] = list(st["region"])
+            return "ok"
+        if s == "rdecoy":
+            return "ok"
+        if s == "rread":
+            r = self.R.get(st["src"])
+            if r is None:
+                return dict(NO_OBJ)
+            h, w = st["shape"]
+            if not _inside(r, h, w):
+                return UNSPEC
+            y0, y1, x0, x1 = r
+            a, b = st["pixels"]
+
+            def chk(want):
+                return want if _valid2(want) else dict(BAD)
+
+            return {"region": r, "rows": y1 - y0, "cols": x1 - x0, "slice": r,
+                    "rot": _reflect(r, h, w, st["corner"]),
+                    "pfront": chk([y0 + a, y0 + b, x0, x1]), "sfront": chk([y0, y1, x0 + a, x0 + b]),
+                    "ptrail": chk([y1 + a, y1 + b, x0, x1]),
+                    "ext": _overlap_in_window(r, st["window"])}
+        raise ValueError(s)
+
+
+_DEF = {"new": "L", "rot": "L", "ext": "L", "copy": "L", "hnew": "H", "anew": "A", "rnew": "R"}
+_USE = {"rot": "L", "ext": "L", "copy": "L", "read": "L", "set": "L", "set_roe": "L", "orient": "L",
+        "decoy": "L", "fault": "L", "hset": "H", "aread": "A", "aset": "A", "adecoy": "A", "afault": "A",
+        "rset": "R", "rread": "R", "rdecoy": "R"}
+
+
+def _step_uses(st):
+    out = set()
+    if st["s"] in _USE:
+        out.add((_USE[st["s"]], st["src"]))
+    if st["s"] == "anew":
+        out.add(("H", st["hdr"]))
+    if st["s"] == "new":
+        out |= {("R", x["ref"]) for x in st["regions"] if isinstance(x, dict)}
+    return out
+
+
+def _step_def(st):
+    return (_DEF[st["s"]], st["dst"]) if st["s"] in _DEF else None
+
+
+class _HistoryBuilder:
+    """seeded generator of one typed history; tracks the state with a _Shadow so that the steps are
+    meaningful (windows that clip, regions inside / outside the frame, twins of earlier steps)."""
+
+    def __init__(self, rng, theme):
+        self.rng, self.theme = rng, theme
+        h, w = rng.randint(2, 7), rng.randint(2, 8)
+        self.h, self.w = h, w
+        v0 = [Fraction(v) for v in gen.distinct_ints(rng, h * w)]
+        v1 = list(v0)
+        k = rng.randrange(h * w)
+        v1[k] = v1[k] * (1 + Fraction(1, 2 ** 20))  # near-duplicate twin: 1e-6 relative on one pixel
+        h2, w2 = (w, h + 1) if rng.random() < 0.6 else (h, w)
+        self.arrays = [
+            {"h": h, "w": w, "values": qlist(v0), "lay": rng.choice(LAYS2)},
+            {"h": h, "w": w, "values": qlist(v1), "lay": rng.choice(LAYS2)},
+            {"h": h2, "w": w2, "values": qlist(gen.distinct_ints(rng, h2 * w2)), "lay": rng.choice(LAYS2)},
+        ]
+        self.sh = _Shadow(self.arrays)
+        self.steps = []
+        self.n = {"L": 0, "H": 0, "A": 0, "R": 0}
+        self.last_corner = None
+        self.last_window = None
+        self.last_L = None
+        self.captured = set()
+
+    # -- helpers
+    def emit(self, st):
+        self.steps.append(st)
+        self.sh.step(st)
+
+    def fresh(self, cat):
+        self.n[cat] += 1
+        return self.n[cat] - 1
+
+    def live(self):
+        return [i for i, l in self.sh.L.items() if l is not None and l != TAINT]
+
+    def corner(self):
+        rng = self.rng
+        if self.last_corner is not None and rng.random() < 0.55:
+            return list(self.last_corner)
+        c = list(rng.choice(CORNERS))
+        self.last_corner = c
+        return c
+
+    def region_in(self, h, w, layoutish=False):
+        rng = self.rng
+        if layoutish and rng.random() < 0.5:  # overscan-like strips hugging an edge
+            k = rng.randint(1, max(1, min(h, w) // 2))
+            return list(rng.choice([[h - k, h, 0, w], [0, h, 0, k], [0, h, w - k, w], [0, k, 0, w],
+                                    [h - k, h, rng.randint(0, w - 1), w]]))
+        return list(rng.choice(_regions(h, w)))
+
+    def window(self, h, w):
+        rng = self.rng
+        if self.last_window is not None and rng.random() < 0.45:
+            e = list(self.last_window)
+            if rng.random() < 0.5:
+                i = rng.randrange(4)
+                e[i] += rng.choice((-1, 1))
+            if _valid2(e) and e[1] <= h and e[3] <= w:
+                return e
+        e = self.region_in(h, w)
+        self.last_window = e
+        return e
+
+    def src(self):
+        live = self.live()
+        while not live:
+            self.new_layout()
+            live = self.live()
+        if self.last_L in live and self.rng.random() < 0.5:
+            return self.last_L
+        return self.rng.choice(live)
+
+    # -- steps
+    def new_layout(self, like=None):
+        rng = self.rng
+        if like is not None and rng.random() < 0.6:  # a twin world: same regions, neighbouring shape / corner
+            src = self.sh.L[like]
+            h, w = src["shape"]
+            regs = [None if r is None else list(r) for r in src["regions"]]
+            k = rng.random()
+            if k < 0.4:
+                h, w = h + rng.choice((0, 1)), w + 1
+            elif k < 0.6:
+                h, w = max(h, w), max(h, w) + 1
+            corner = list(rng.choice(CORNERS))
+        else:
+            h, w = (self.h, self.w) if rng.random() < 0.7 else (rng.randint(1, 7), rng.randint(1, 8))
+            regs = [self.region_in(h, w, True) if rng.random() < 0.8 else None for _ in range(3)]
+            if all(r is None for r in regs):
+                regs[rng.randrange(3)] = self.region_in(h, w, True)
+            corner = list(rng.choice(CORNERS))
+        specs = list(regs)
+        valid_refs = [j for j, r in self.sh.R.items() if r is not None and _inside(r, h, w)]
+        if valid_refs and rng.random() < 0.5:  # a Region2D object shared with other layouts / reads
+            j = rng.choice(valid_refs)
+            specs[rng.randrange(3)] = {"ref": j}
+            self.captured.add(j)
+        if rng.random() < 0.06:  # a constructor fault: an invalid region
+            specs[rng.randrange(3)] = [1, 1, 0, 1]
+        d = self.fresh("L")
+        self.emit({"s": "new", "dst": d, "via": rng.choice(("ctor", "ctor", "rotated_from")), "shape": [h, w],
+                   "corner": corner, "regions": specs, "as": rng.choice(("tuple", "obj"))})
+        if self.sh.L[d] not in (None, TAINT):
+            self.last_L = d
+
+    def rot(self):
+        i = self.src()
+        d = self.fresh("L")
+        self.emit({"s": "rot", "dst": d, "src": i, "corner": self.corner()})
+        if self.rng.random() < 0.5 and self.sh.L[d] not in (None, TAINT):
+            self.last_L = d
+
+    def ext(self):
+        i = self.src()
+        h, w = self.sh.L[i]["shape"]
+        d = self.fresh("L")
+        self.emit({"s": "ext", "dst": d, "src": i, "window": self.window(h, w),
+                   "as": self.rng.choice(("tuple", "list", "obj", "npint"))})
+        if self.rng.random() < 0.6:
+            self.last_L = d
+
+    def read(self):
+        self.emit({"s": "read", "src": self.src()})
+
+    def set(self):
+        rng = self.rng
+        i = self.src()
+        h, w = self.sh.L[i]["shape"]
+        k = rng.random()
+        if k < 0.1:
+            r = None
+        elif k < 0.75:
+            r = self.region_in(h, w, rng.random() < 0.5)
+        else:  # a valid region that leaves the frame: rotating this layout must be rejected or is unspecified
+            r = [rng.randint(0, h), h + rng.randint(1, 2), rng.randint(0, max(0, w - 1)), w + rng.randint(0, 1)]
+        self.emit({"s": "set", "src": i, "name": rng.randrange(3), "region": r,
+                   "as": rng.choice(("obj", "obj", "tuple_obj"))})
+
+    def set_roe(self):
+        self.emit({"s": "set_roe", "src": self.src(), "corner": list(self.rng.choice(CORNERS))})
+
+    def copy(self):
+        i = self.src()
+        d = self.fresh("L")
+        self.emit({"s": "copy", "dst": d, "src": i, "deep": self.rng.random() < 0.5})
+        if self.rng.random() < 0.5:
+            self.last_L = d
+
+    def orient(self):
+        rng = self.rng
+        i = self.src()
+        l = self.sh.L[i]
+        k = rng.choice((0, 0, 1, 1, 2))
+        a = self.arrays[k]
+        extract = l["shape"] == [a["h"], a["w"]] and all(_inside(r, a["h"], a["w"]) for r in l["regions"])
+        self.emit({"s": "orient", "src": i, "arr": k, "extract": bool(extract)})
+
+    def decoy(self):
+        self.emit({"s": "decoy", "src": self.src()})
+
+    def fault(self):
+        self.emit({"s": "fault", "src": self.src(), "how": self.rng.randrange(6)})
+
+    def arr_op(self):
+        rng = self.rng
+        if not self.sh.H or rng.random() < 0.08:
+            self.emit({"s": "hnew", "dst": self.fresh("H"), "corner": list(rng.choice(CORNERS))})
+            return
+        if not self.sh.A or rng.random() < 0.15:
+            self.emit({"s": "anew", "dst": self.fresh("A"), "arr": rng.choice((0, 0, 1, 2)),
+                       "hdr": rng.choice(list(self.sh.H)), "store_native": rng.random() < 0.5,
+                       "ctor": rng.choice(("a", "b"))})
+            return
+        d = rng.choice(list(self.sh.A))
+        rows = self.sh.A[d]["rows"]
+        k = rng.random()
+        if k < 0.42:
+            self.emit({"s": "aread", "src": d})
+        elif k < 0.72:
+            y, x = rng.randrange(len(rows)), rng.randrange(len(rows[0]))
+            old = Fraction(rows[y][x])
+            val = old * (1 + Fraction(1, 2 ** 20)) if (rng.random() < 0.4 and old != 0) else \
+                Fraction(rng.randint(-400, 400) * 4 + 1, 4)
+            if Fraction(float(val)) != val:  # keep every value an exact double
+                val = Fraction(rng.randint(-400, 400) * 4 + 1, 4)
+            self.emit({"s": "aset", "src": d, "y": y, "x": x, "value": q(val)})
+        elif k < 0.84:
+            self.emit({"s": "hset", "src": self.sh.A[d]["hdr"], "corner": list(rng.choice(CORNERS))})
+        elif k < 0.94:
+            self.emit({"s": "adecoy", "src": d})
+        else:
+            self.emit({"s": "afault", "src": d})
+
+    def reg_op(self):
+        rng = self.rng
+        live = [j for j, r in self.sh.R.items() if r is not None]
+        if not live or rng.random() < 0.15:
+            h, w = self.h, self.w
+            r = self.region_in(h, w) if rng.random() < 0.9 else [1, 0, 0, 1]
+            self.emit({"s": "rnew", "dst": self.fresh("R"), "region": r})
+            return
+        j = rng.choice(live)
+        r = self.sh.R[j]
+        k = rng.random()
+        if k < 0.3 and j not in self.captured:
+            new = list(r)
+            if rng.random() < 0.6:
+                i = rng.randrange(4)
+                new[i] += rng.choice((-1, 1))
+            else:
+                new = self.region_in(self.h + 1, self.w + 1)
+            if _valid2(new):
+                self.emit({"s": "rset", "src": j, "region": new})
+                return
+        if k < 0.45:
+            self.emit({"s": "rdecoy", "src": j})
+            return
+        h = max(r[1], self.h) + rng.choice((0, 0, 1))
+        w = max(r[3], self.w) + rng.choice((0, 0, 2))
+        if rng.random() < 0.1:
+            h = max(1, r[1] - 1)
+        self.emit({"s": "rread", "src": j, "shape": [h, w], "corner": self.corner(),
+                   "pixels": [rng.randint(-1, 3), rng.randint(0, 4)], "window": self.window(h, w)})
+
+    def build(self, n_steps):
+        rng = self.rng
+        table = {
+            "layout": [("rot", 3.5), ("ext", 3.5), ("read", 1), ("set", 1.5), ("set_roe", .4), ("copy", 1),
+                       ("orient", .8), ("decoy", .8), ("fault", .6), ("new", .8)],
+            "orient": [("orient", 4), ("set_roe", 1.5), ("rot", 1), ("ext", .6), ("copy", .6), ("decoy", .8),
+                       ("fault", .8), ("new", .8), ("set", .6)],
+            "array": [("arr", 1)],
+            "region": [("reg", 5), ("new", 1), ("rot", 1), ("ext", 1), ("read", .5)],
+            "mixed": [("rot", 2), ("ext", 2), ("read", .7), ("set", 1), ("set_roe", .4), ("copy", .6),
+                      ("orient", 1.2), ("decoy", .6), ("fault", .5), ("new", .6), ("arr", 3), ("reg", 2)],
+        }[self.theme]
+        names, weights = [a for a, _ in table], [b for _, b in table]
+        if self.theme not in ("array", "region"):
+            self.new_layout()
+        while len(self.steps) < n_steps:
+            op = rng.choices(names, weights)[0]
+            if op == "new":
+                live = self.live()
+                self.new_layout(like=rng.choice(live) if live else None)
+            elif op == "arr":
+                self.arr_op()
+            elif op == "reg":
+                self.reg_op()
+            else:
+                getattr(self, op)()
+        return {"tag": f"hist_{self.theme}", "kind": "history", "arrays": self.arrays, "steps": self.steps}
+
+
+def _template_histories():
+    """seed-independent families: every corner x a few windows x the orders in which a layout, its copies and
+    the layouts extracted from it are rotated / edited (the derived object must answer like a fresh one)."""
+    shape = [6, 8]
+    regs = [[4, 6, 1, 7], [0, 6, 0, 1], [0, 4, 7, 8]]
+    arrays = [{"h": 6, "w": 8, "values": qlist(range(1, 49)), "lay": "C"}]
+    windows = [[1, 5, 1, 7], [0, 3, 0, 4], [2, 6, 4, 8], [4, 6, 6, 8]]
+    new = {"s": "new", "dst": 0, "via": "ctor", "shape": shape, "corner": [1, 0], "regions": regs, "as": "tuple"}
+
+    def case(tag, steps):
+        return {"tag": tag, "kind": "history", "arrays": arrays, "steps": [dict(new)] + steps}
+
+    for c in CORNERS:
+        c = list(c)
+        for i, e in enumerate(windows):
+            e2 = windows[(i + 1) % len(windows)]
+            yield case("hist_t_rot_ext_rot", [
+                {"s": "rot", "dst": 1, "src": 0, "corner": c}, {"s": "ext", "dst": 2, "src": 0, "window": e, "as": "tuple"},
+                {"s": "rot", "dst": 3, "src": 2, "corner": c}, {"s": "rot", "dst": 4, "src": 3, "corner": c},
+                {"s": "read", "src": 0}, {"s": "read", "src": 2}])
+            yield case("hist_t_ext_rot_rot", [
+                {"s": "ext", "dst": 1, "src": 0, "window": e, "as": "tuple"}, {"s": "rot", "dst": 2, "src": 1, "corner": c},
+                {"s": "rot", "dst": 3, "src": 0, "corner": c}, {"s": "rot", "dst": 4, "src": 3, "corner": c},
+                {"s": "read", "src": 0}])
+            yield case("hist_t_two_windows", [
+                {"s": "ext", "dst": 1, "src": 0, "window": e, "as": "tuple"},
+                {"s": "ext", "dst": 2, "src": 0, "window": e2, "as": "tuple"},
+                {"s": "rot", "dst": 3, "src": 1, "corner": c}, {"s": "rot", "dst": 4, "src": 2, "corner": c},
+                {"s": "rot", "dst": 5, "src": 0, "corner": c}])
+            yield case("hist_t_rot_ext_of_rotated", [
+                {"s": "rot", "dst": 1, "src": 0, "corner": c}, {"s": "ext", "dst": 2, "src": 1, "window": e, "as": "tuple"},
+                {"s": "rot", "dst": 3, "src": 2, "corner": c}, {"s": "ext", "dst": 4, "src": 0, "window": e, "as": "tuple"},
+                {"s": "rot", "dst": 5, "src": 1, "corner": c}])
+            for deep in (False, True):
+                yield case("hist_t_copy_edit", [
+                    {"s": "rot", "dst": 1, "src": 0, "corner": c}, {"s": "copy", "dst": 2, "src": 0, "deep": deep},
+                    {"s": "set", "src": 2, "name": i % 3, "region": e, "as": "obj"},
+                    {"s": "rot", "dst": 3, "src": 2, "corner": c}, {"s": "ext", "dst": 4, "src": 2, "window": e2, "as": "tuple"},
+                    {"s": "rot", "dst": 5, "src": 0, "corner": c}, {"s": "read", "src": 0}])
+            yield case("hist_t_edit_in_place", [
+                {"s": "rot", "dst": 1, "src": 0, "corner": c}, {"s": "ext", "dst": 2, "src": 0, "window": e2, "as": "tuple"},
+                {"s": "orient", "src": 0, "arr": 0, "extract": True},
+                {"s": "set", "src": 0, "name": i % 3, "region": e, "as": "obj"},
+                {"s": "set_roe", "src": 0, "corner": c},
+                {"s": "rot", "dst": 3, "src": 0, "corner": c}, {"s": "ext", "dst": 4, "src": 0, "window": e2, "as": "tuple"},
+                {"s": "orient", "src": 0, "arr": 0, "extract": True}])
+            yield case("hist_t_fault_reuse", [
+                {"s": "set", "src": 0, "name": 1 + i % 2, "region": [2, 7, 0, 9], "as": "obj"},
+                {"s": "rot", "dst": 1, "src": 0, "corner": c}, {"s": "fault", "src": 0, "how": i},
+                {"s": "set", "src": 0, "name": 1 + i % 2, "region": e, "as": "obj"},
+                {"s": "rot", "dst": 2, "src": 0, "corner": c}, {"s": "ext", "dst": 3, "src": 0, "window": e2, "as": "tuple"}])
+    # Header / Array2D: shared header, in-place edits, both storage modes
+    for c in CORNERS:
+        for c2 in CORNERS:
+            for sn in (False, True):
+                yield {"tag": "hist_t_array", "kind": "history", "arrays": arrays, "steps": [
+                    {"s": "hnew", "dst": 0, "corner": list(c)},
+                    {"s": "anew", "dst": 0, "arr": 0, "hdr": 0, "store_native": sn, "ctor": "a"},
+                    {"s": "anew", "dst": 1, "arr": 0, "hdr": 0, "store_native": not sn, "ctor": "b"},
+                    {"s": "aread", "src": 0}, {"s": "aset", "src": 0, "y": 1, "x": 2, "value": "401/4"},
+                    {"s": "aread", "src": 0}, {"s": "aread", "src": 1},
+                    {"s": "hset", "src": 0, "corner": list(c2)}, {"s": "aread", "src": 0},
+                    {"s": "aset", "src": 1, "y": 5, "x": 7, "value": "-3/4"}, {"s": "aread", "src": 1},
+                    {"s": "aread", "src": 0}]}
 
 
 class C19(PropertyCheck):
@@ -115,6 +702,18 @@ class C19(PropertyCheck):
     #    (tuple, list, numpy ints, Region2D / Region1D objects), omitted-vs-explicit default arguments,
     #    alternative constructors.  Model and oracle are unaffected.
     def generate(self, tier, rng):
+        quick = tier == "quick"
+        # -- round-4: histories on reused objects (seed-independent templates, then seeded typed histories)
+        yield from _template_histories()
+        themes = ("layout", "layout", "layout", "orient", "array", "array", "region", "mixed", "mixed")
+        for k in range(1500 if quick else 12000):
+            yield _HistoryBuilder(rng, themes[k % len(themes)]).build(rng.randint(4, 12))
+        # -- round-4: coordinates at dtype-limit magnitudes and a few frames beyond the usual fast-path
+        #    thresholds, always on (pure integer arithmetic / numpy-only oracle: cheap)
+        yield from self._bigcoord_cases([b + d for b in (2 ** 15, 2 ** 16, 2 ** 31, 2 ** 32) for d in (-1, 0, 1)],
+                                        rng, "big_coord")
+        yield from self._large_frame_cases([4097, 65537] if quick else [1025, 4097, 16385, 65537, 262145],
+                                           rng, "big_frame")
         for case in self._generate_base(tier, rng):
             r = rng.random()
             yield {**case, "variant": {
@@ -122,7 +721,8 @@ class C19(PropertyCheck):
                 "reg": rng.choice(("tuple", "tuple", "list", "npint", "obj")),
                 "shp": rng.choice(("tuple", "list", "npint")),
                 "omit_defaults": rng.random() < 0.5,
-                "ctor": rng.choice(("a", "b"))}}
+                "ctor": rng.choice(("a", "b")),
+                "lay": rng.choice(LAYS2)}}
         # 1-D layout twin (Layout1D): prescan / overscan validation and overscan extraction
         quick = tier == "quick"
         for n in range(1, 6 if quick else 8):
@@ -131,7 +731,7 @@ class C19(PropertyCheck):
                 yield {"tag": "layout1d", "kind": "layout1d", "n": n, "values": qlist(gen.distinct_ints(rng, n)),
                        "prescan": None if pre is None else list(pre), "overscan": list(ov),
                        "variant": {"dt": rng.choice(("f8", "i8", "list")), "reg": "tuple", "shp": "tuple",
-                                   "omit_defaults": False, "ctor": "a"}}
+                                   "omit_defaults": False, "ctor": "a", "lay": rng.choice(LAYS1)}}
 
     @staticmethod
     def _var(case):
@@ -140,14 +740,15 @@ class C19(PropertyCheck):
     def _arr(self, case, h, w, need_ndarray=True):
         fr = [Fraction(v) for v in case["values"]]
         dt = self._var(case).get("dt", "f8")
+        lay = self._var(case).get("lay", "C")
         if dt == "i8":
-            return np.array([int(f) for f in fr], dtype=np.int64).reshape(h, w)
+            return _relayout(np.array([int(f) for f in fr], dtype=np.int64).reshape(h, w), lay)
         if dt == "f4":
-            return np.array([float(f) for f in fr], dtype=np.float32).reshape(h, w)
+            return _relayout(np.array([float(f) for f in fr], dtype=np.float32).reshape(h, w), lay)
         if dt == "list" and not need_ndarray:
             flat = [int(f) for f in fr]
             return [flat[y * w:(y + 1) * w] for y in range(h)]
-        return np.array([float(f) for f in fr]).reshape(h, w)
+        return _relayout(np.array([float(f) for f in fr]).reshape(h, w), lay)
 
     def _reg(self, aa, case, r, allow_obj=True, dim=2):
         """a region argument as tuple / list / tuple of numpy ints / Region object (valid regions only)."""
@@ -280,6 +881,12 @@ class C19(PropertyCheck):
         from autoarray.layout import layout_util as lu
 
         kind = case["kind"]
+        if kind == "history":
+            return self._run_history(aa, lu, case)
+        if kind == "large_frame":
+            return self._run_large_frame(aa, lu, case)
+        if kind == "large_1d":
+            return self._run_large_1d(aa, case)
 
         def reg_out(r):
             return None if r is None else [int(v) for v in r.region]
@@ -369,8 +976,8 @@ class C19(PropertyCheck):
                 n = case["n"]
                 pre = None if case["prescan"] is None else tuple(case["prescan"])
                 lay = aa.Layout1D(shape_1d=(n,), prescan=pre, overscan=tuple(case["overscan"]))
-                vals = self._arr(case, 1, n, need_ndarray=False)
-                vals = vals[0] if isinstance(vals, list) else vals.reshape(n)
+                vals = self._arr({**case, "variant": {**self._var(case), "lay": "C"}}, 1, n, need_ndarray=False)
+                vals = vals[0] if isinstance(vals, list) else _relayout(vals.reshape(n), self._var(case).get("lay"))
                 arr = aa.Array1D.no_mask(values=vals, pixel_scales=1.0)
                 return {"prescan": reg_out(lay.prescan), "overscan": reg_out(lay.overscan),
                         "overscan_array": qlist(np.asarray(
@@ -419,7 +1026,11 @@ class C19(PropertyCheck):
         obs["serial_overscan_array"] = None if lay.serial_overscan is None else _rows(
             lay.extract_serial_overscan_array_from(array=arr).native.array)
         hdr = aa.Header(original_roe_corner=c)
-        mask = aa.Mask2D.all_false(shape_native=(h, w), pixel_scales=1.0)
+        if self._var(case).get("lay", "C") in ("C", "be", "unaligned"):
+            mask = aa.Mask2D.all_false(shape_native=(h, w), pixel_scales=1.0)
+        else:  # the mask as an equal-valued bool array of the same memory layout as the values
+            mask = aa.Mask2D(mask=_relayout(np.zeros((h, w), dtype=bool), self._var(case).get("lay")),
+                             pixel_scales=1.0)
         if self._var(case).get("ctor") == "b" and not case["store_native"]:
             arr2 = aa.Array2D.no_mask(values=self._arr(case, h, w, need_ndarray=False), pixel_scales=1.0,
                                       header=hdr)
@@ -435,6 +1046,11 @@ class C19(PropertyCheck):
     # ------------------------------------------------------------------ model
     def model_requests(self, case, impl_obs):
         kind = case["kind"]
+        if case.get("large"):
+            return []  # judged by the vectorised oracle alone
+        if kind == "history":
+            arrays = [[a["values"][y * a["w"]:(y + 1) * a["w"]] for y in range(a["h"])] for a in case["arrays"]]
+            return [{"op": "c19.history", "arrays": arrays, "steps": case["steps"]}]
         if kind == "rotate":
             h, w = case["h"], case["w"]
             rows = [case["values"][y * w:(y + 1) * w] for y in range(h)]
@@ -489,6 +1105,8 @@ class C19(PropertyCheck):
             return {"prescan": responses[2]["ok"] if len(responses) > 2 else None,
                     "overscan": responses[0]["ok"], "overscan_array": responses[1]["ok"]}
         r = responses[0]
+        if kind == "history" and "ok" in r:
+            return list(r["ok"]) + [{"intact": True}]
         if kind == "rotate" and "ok" in r:
             return {**r["ok"], "slice_xy": r["ok"]["slice"]}
         return r["ok"] if "ok" in r else {"err": r["err"]}
@@ -692,6 +1310,491 @@ class C19(PropertyCheck):
                            f"= {obs['original_orientation']}, expected the flipped native array")
         return True, ""
 
+    # ================================================================== round-4: histories (implementation side)
+    @staticmethod
+    def _sweep(obj):
+        """decoy: read every public attribute / property of an object (methods are not called)."""
+        for n in dir(obj):
+            if n.startswith("_"):
+                continue
+            try:
+                getattr(obj, n)
+            except Exception:
+                pass
+
+    def _run_history(self, aa, lu, case):
+        import copy as _copy
+        from autoarray import exc
+
+        arrays = case["arrays"]
+
+        def build(k):
+            a = arrays[k]
+            vals = np.array([float(Fraction(v)) for v in a["values"]]).reshape(a["h"], a["w"])
+            return _relayout(vals, a.get("lay", "C"))
+
+        pool = {}
+
+        def arr(k):
+            if k not in pool:
+                pool[k] = build(k)
+            return pool[k]
+
+        L, H, A, R = {}, {}, {}, {}
+
+        def reg_out(r):
+            return None if r is None else [int(v) for v in r.region]
+
+        def view(l):
+            return {"regions": [reg_out(getattr(l, n)) for n in NAMES3],
+                    "roe": [int(v) for v in l.original_roe_corner], "shape": [int(v) for v in l.shape_2d]}
+
+        def region_arg(x, how):
+            if x is None:
+                return None
+            if isinstance(x, dict):
+                return R[x["ref"]]
+            if how == "obj" and _valid2(x):
+                return aa.Region2D(region=tuple(x))
+            if how == "list":
+                return [int(v) for v in x]
+            if how == "npint":
+                return tuple(np.int64(v) for v in x)
+            return tuple(int(v) for v in x)
+
+        def attempt(f):
+            try:
+                f()
+            except Exception:
+                pass
+
+        out = []
+        for st in case["steps"]:
+            s = st["s"]
+            try:
+                if s == "new":
+                    L[st["dst"]] = None
+                    regs = [region_arg(x, st.get("as", "tuple")) for x in st["regions"]]
+                    if st["via"] == "ctor":
+                        l = aa.Layout2D(shape_2d=tuple(st["shape"]), original_roe_corner=tuple(st["corner"]),
+                                        parallel_overscan=regs[0], serial_prescan=regs[1], serial_overscan=regs[2])
+                    else:
+                        l = aa.Layout2D.rotated_from_roe_corner(
+                            roe_corner=tuple(st["corner"]), shape_native=tuple(st["shape"]),
+                            parallel_overscan=regs[0], serial_prescan=regs[1], serial_overscan=regs[2])
+                    L[st["dst"]] = l
+                    out.append(view(l))
+                elif s in ("rot", "ext", "copy"):
+                    L[st["dst"]] = None
+                    src = L.get(st["src"])
+                    if src is None:
+                        out.append(dict(NO_OBJ))
+                        continue
+                    if s == "rot":
+                        l = src.new_rotated_from(roe_corner=tuple(st["corner"]))
+                    elif s == "ext":
+                        l = src.layout_extracted_from(extraction_region=region_arg(st["window"], st.get("as", "tuple")))
+                    else:
+                        l = _copy.deepcopy(src) if st.get("deep") else _copy.copy(src)
+                    L[st["dst"]] = l
+                    out.append("ok" if s == "copy" else view(l))
+                elif s in ("read", "set", "set_roe", "orient", "decoy", "fault"):
+                    src = L.get(st["src"])
+                    if src is None:
+                        out.append("ok" if s in ("decoy", "fault") else dict(NO_OBJ))
+                        continue
+                    if s == "read":
+                        out.append(view(src))
+                    elif s == "set":
+                        setattr(src, NAMES3[st["name"]],
+                                None if st["region"] is None else aa.Region2D(region=tuple(st["region"])))
+                        out.append("ok")
+                    elif s == "set_roe":
+                        src.original_roe_corner = tuple(st["corner"])
+                        out.append("ok")
+                    elif s == "orient":
+                        a = arr(st["arr"])
+                        ra = src.original_orientation_from(array=a)
+                        o = {"rows": _rows(ra), "po": None, "so": None}
+                        if st["extract"]:
+                            a2 = aa.Array2D.no_mask(values=ra, pixel_scales=1.0)
+                            if src.parallel_overscan is not None:
+                                o["po"] = _rows(src.extract_parallel_overscan_array_2d_from(array=a2).native.array)
+                            if src.serial_overscan is not None:
+                                o["so"] = _rows(src.extract_serial_overscan_array_from(array=a2).native.array)
+                        out.append(o)
+                    elif s == "decoy":
+                        # every other public quantity and the sibling API, results discarded
+                        self._sweep(src)
+                        for n in NAMES3:
+                            if getattr(src, n) is not None:
+                                self._sweep(getattr(src, n))
+                        for c in CORNERS:
+                            attempt(lambda: src.new_rotated_from(roe_corner=c))
+                        h, w = int(src.shape_2d[0]), int(src.shape_2d[1])
+                        attempt(lambda: src.layout_extracted_from(extraction_region=(0, h, 0, w)))
+                        attempt(lambda: src.layout_extracted_from(extraction_region=(0, 1, 0, 1)))
+                        d2 = aa.Array2D.no_mask(values=np.arange(1.0, h * w + 1).reshape(h, w), pixel_scales=1.0)
+                        attempt(lambda: src.original_orientation_from(array=np.array(d2.native)))
+                        attempt(lambda: src.extract_parallel_overscan_array_2d_from(array=d2))
+                        attempt(lambda: src.extract_serial_overscan_array_from(array=d2))
+                        attempt(lambda: src.parallel_overscan_binned_array_1d_from(array=d2))
+                        attempt(lambda: src.serial_overscan_binned_array_1d_from(array=d2))
+                        out.append("ok")
+                    else:  # a call that fails (possibly half-way); only what follows is observed
+                        h, w = int(src.shape_2d[0]), int(src.shape_2d[1])
+                        how = st.get("how", 0) % 6
+                        attempt([
+                            lambda: src.layout_extracted_from(extraction_region=None),
+                            lambda: src.layout_extracted_from(extraction_region=(1,)),
+                            lambda: src.original_orientation_from(array=None),
+                            lambda: src.extract_serial_overscan_array_from(array=None),
+                            lambda: aa.Layout2D.rotated_from_roe_corner(
+                                roe_corner=(0, 1), shape_native=(h, w), parallel_overscan=(0, 1, 0, 1),
+                                serial_prescan=(0, h + 3, 0, 1), serial_overscan=(0, 1, 0, 1)),
+                            lambda: lu.rotate_region_via_roe_corner_from(
+                                region=src.parallel_overscan or src.serial_overscan or (0, 1, 0, 1),
+                                shape_native=(0, 0), roe_corner=(0, 1)),
+                        ][how])
+                        out.append("ok")
+                elif s == "hnew":
+                    H[st["dst"]] = aa.Header(original_roe_corner=tuple(st["corner"]))
+                    out.append("ok")
+                elif s == "hset":
+                    H[st["src"]].original_roe_corner = tuple(st["corner"])
+                    out.append("ok")
+                elif s == "anew":
+                    a = build(st["arr"])
+                    h, w = a.shape
+                    if st["ctor"] == "a":
+                        A[st["dst"]] = aa.Array2D(values=a, mask=aa.Mask2D.all_false(shape_native=(h, w), pixel_scales=1.0),
+                                                  header=H[st["hdr"]], store_native=st["store_native"])
+                    else:
+                        A[st["dst"]] = aa.Array2D.no_mask(values=a, pixel_scales=1.0, header=H[st["hdr"]])
+                    out.append("ok")
+                elif s in ("aread", "aset", "adecoy", "afault"):
+                    a = A.get(st["src"])
+                    if a is None:
+                        out.append("ok" if s in ("adecoy", "afault") else dict(NO_OBJ))
+                    elif s == "aread":
+                        out.append(_rows(np.asarray(a.original_orientation)))
+                    elif s == "aset":
+                        v = float(Fraction(st["value"]))
+                        if a.store_native:
+                            a[st["y"], st["x"]] = v
+                        else:
+                            a[st["y"] * a.shape_native[1] + st["x"]] = v
+                        out.append("ok")
+                    elif s == "adecoy":
+                        self._sweep(a)
+                        out.append("ok")
+                    else:
+                        def bad_write():
+                            a[10 ** 6] = 1.0
+                        attempt(bad_write)
+                        attempt(lambda: a.native[10 ** 6])
+                        out.append("ok")
+                elif s == "rnew":
+                    R[st["dst"]] = None
+                    R[st["dst"]] = aa.Region2D(region=tuple(st["region"]))
+                    out.append(reg_out(R[st["dst"]]))
+                elif s == "rset":
+                    R[st["src"]].region = tuple(st["region"])
+                    out.append("ok")
+                elif s == "rdecoy":
+                    r = R.get(st["src"])
+                    if r is not None:
+                        self._sweep(r)
+                        for px in ((0, 1), (1, 3)):
+                            for f in (r.parallel_front_region_from, r.serial_front_region_from,
+                                      r.parallel_trailing_region_from, r.serial_trailing_region_from,
+                                      r.serial_x_front_range_from):
+                                attempt(lambda: f(pixels=px))
+                        for c in CORNERS:
+                            attempt(lambda: lu.rotate_region_via_roe_corner_from(region=r, shape_native=(50, 60),
+                                                                                 roe_corner=c))
+                    out.append("ok")
+                elif s == "rread":
+                    r = R.get(st["src"])
+                    if r is None:
+                        out.append(dict(NO_OBJ))
+                        continue
+                    sl = r.slice
+                    slc = [int(sl[0].start), int(sl[0].stop), int(sl[1].start), int(sl[1].stop)]
+                    if (r.y_slice, r.x_slice) != (sl[0], sl[1]):
+                        slc = "y_slice / x_slice differ from slice"
+
+                    def sub(f):
+                        try:
+                            return reg_out(f())
+                        except exc.RegionException:
+                            return dict(BAD)
+
+                    px = tuple(st["pixels"])
+                    o = {"region": reg_out(r), "rows": int(r.total_rows), "cols": int(r.total_columns), "slice": slc,
+                         "rot": sub(lambda: lu.rotate_region_via_roe_corner_from(
+                             region=r, shape_native=tuple(st["shape"]), roe_corner=tuple(st["corner"]))),
+                         "pfront": sub(lambda: r.parallel_front_region_from(pixels=px)),
+                         "sfront": sub(lambda: r.serial_front_region_from(pixels=px)),
+                         "ptrail": sub(lambda: r.parallel_trailing_region_from(pixels=px)),
+                         "ext": sub(lambda: lu.region_after_extraction(original_region=r,
+                                                                       extraction_region=tuple(st["window"])))}
+                    out.append(o)
+                else:
+                    raise ValueError(s)
+            except exc.RegionException:
+                out.append(dict(BAD))
+        intact = all(np.array_equal(pool[k], build(k)) for k in pool)
+        out.append({"intact": bool(intact)})
+        return out
+
+    def _oracle_history(self, case, obs):
+        if isinstance(obs, dict):
+            return False, f"the history raised: {obs}"
+        sh = _Shadow(case["arrays"])
+        if len(obs) != len(case["steps"]) + 1:
+            return False, "history observation has the wrong length"
+        for i, st in enumerate(case["steps"]):
+            want = sh.step(st)
+            if want is UNSPEC or want == UNSPEC:
+                continue
+            if obs[i] != want:
+                return False, (f"step {i} {json.dumps(st)}: the reused object answered {json.dumps(obs[i])[:600]}; "
+                               f"a fresh object in the same state gives {json.dumps(want)[:600]}")
+        if obs[-1] != {"intact": True}:
+            return False, "a caller-owned input array was modified by the history"
+        return True, ""
+
+    # ================================================================== round-4: large / size-directed cases
+    @staticmethod
+    def _large_values(h, w, dt):
+        n = h * w
+        v = np.arange(1, n + 1)
+        if dt == "i8":
+            return v.astype(np.int64).reshape(h, w)
+        if dt == "f4" and n < 2 ** 24:
+            return v.astype(np.float32).reshape(h, w)
+        return (v.astype(np.float64) + 0.5).reshape(h, w)
+
+    def _run_large_frame(self, aa, lu, case):
+        h, w = case["h"], case["w"]
+        var = self._var(case)
+        a = _relayout(self._large_values(h, w, var.get("dt", "f8")), var.get("lay", "C"))
+        c = tuple(case["corner"])
+        reg, win = tuple(case["region"]), tuple(case["window"])
+        ra = lu.rotate_array_via_roe_corner_from(array=a, roe_corner=c)
+        rr = lu.rotate_region_via_roe_corner_from(region=reg, shape_native=(h, w), roe_corner=c)
+        back = lu.rotate_region_via_roe_corner_from(region=rr, shape_native=(h, w), roe_corner=c)
+        lay = aa.Layout2D.rotated_from_roe_corner(roe_corner=c, shape_native=(h, w), parallel_overscan=reg,
+                                                  serial_overscan=win)
+        lo = lay.original_orientation_from(array=a)
+        # slim <-> native conversions are pure-Python loops here (numba absent): "full" exercises both storage
+        # modes, "native" keeps frames native-stored and extracts only regions of moderate area
+        full = case.get("a2d", "full") == "full"
+        mask = aa.Mask2D.all_false(shape_native=(h, w), pixel_scales=1.0)
+        arr = aa.Array2D.no_mask(values=lo, pixel_scales=1.0) if full else \
+            aa.Array2D(values=lo, mask=mask, store_native=True)
+        hdr = aa.Header(original_roe_corner=c)
+        arr2 = aa.Array2D(values=a, mask=mask, header=hdr,
+                          store_native=bool(case.get("store_native")) or not full)
+
+        def area(r):
+            return (r[1] - r[0]) * (r[3] - r[2])
+
+        po = so = None
+        if full or area(reg) <= 20_000:
+            po = np.asarray(lay.extract_parallel_overscan_array_2d_from(array=arr).native.array)
+        if full or area(win) <= 20_000:
+            so = np.asarray(lay.extract_serial_overscan_array_from(array=arr).native.array)
+        ext = lu.region_after_extraction(original_region=reg, extraction_region=win)
+        lay2 = lay.new_rotated_from(roe_corner=c)
+        return {
+            "rotated_array": np.asarray(ra), "rotated_region": [int(v) for v in rr.region],
+            "twice_array": np.asarray(lu.rotate_array_via_roe_corner_from(array=ra, roe_corner=c)),
+            "twice_region": [int(v) for v in back.region],
+            "orientation_from": np.asarray(lo),
+            "layout_regions": [[int(v) for v in lay.parallel_overscan.region],
+                               [int(v) for v in lay.serial_overscan.region]],
+            "layout_twice": [[int(v) for v in lay2.parallel_overscan.region],
+                             [int(v) for v in lay2.serial_overscan.region]],
+            "parallel_overscan_array": po, "serial_overscan_array": so,
+            "original_orientation": np.asarray(arr2.original_orientation),
+            "ext_region": None if ext is None else [int(v) for v in ext.region],
+            "ext_content": None if ext is None else np.asarray(a[win[0]:win[1], win[2]:win[3]][ext.slice]),
+            "input_intact": bool(np.array_equal(a, self._large_values(h, w, var.get("dt", "f8")))),
+        }
+
+    def _oracle_large_frame(self, case, obs):
+        if "err" in obs:
+            return False, f"raised {obs}"
+        h, w = case["h"], case["w"]
+        a = self._large_values(h, w, self._var(case).get("dt", "f8"))
+        c = tuple(case["corner"])
+        # the four orientations by explicit index arithmetic: out[i, j] = a[yi[i], xi[j]]
+        yi = np.arange(h) if c[0] == 1 else (h - 1) - np.arange(h)
+        xi = np.arange(w) if c[1] == 0 else (w - 1) - np.arange(w)
+        want = a[np.ix_(yi, xi)]
+
+        def same(x, y):
+            x = np.asarray(x)
+            return x.shape == y.shape and bool(np.array_equal(x, y))
+
+        def cut(m, r):
+            return m[r[0]:r[1], r[2]:r[3]]
+
+        reg, win = case["region"], case["window"]
+        for key in ("rotated_array", "orientation_from", "original_orientation"):
+            if not same(obs[key], want):
+                return False, f"{key} ({h}x{w}, corner {c}) is not the flipped array"
+        if not same(obs["twice_array"], a):
+            return False, "rotating the array twice does not restore it"
+        rr = _reflect(reg, h, w, c)
+        if obs["rotated_region"] != rr or obs["twice_region"] != list(reg):
+            return False, f"rotated region {obs['rotated_region']} / twice {obs['twice_region']} != {rr} / {list(reg)}"
+        if obs["layout_regions"] != [rr, _reflect(win, h, w, c)] or obs["layout_twice"] != [list(reg), list(win)]:
+            return False, "Layout2D rotation of the regions is not the reflection / not an involution"
+        # the rotated region slices from the rotated array the rotated content of the original region
+        ry = np.arange(reg[0], reg[1]) if c[0] == 1 else np.arange(reg[1] - 1, reg[0] - 1, -1)
+        rx = np.arange(reg[2], reg[3]) if c[1] == 0 else np.arange(reg[3] - 1, reg[2] - 1, -1)
+        if not same(cut(np.asarray(obs["rotated_array"]), obs["rotated_region"]), a[np.ix_(ry, rx)]):
+            return False, "the rotated region does not slice the rotated content of the original region"
+        if obs["parallel_overscan_array"] is not None and not same(obs["parallel_overscan_array"], a[np.ix_(ry, rx)]):
+            return False, "extract_parallel_overscan_array_2d_from is not the rotated content of the region"
+        wy = np.arange(win[0], win[1]) if c[0] == 1 else np.arange(win[1] - 1, win[0] - 1, -1)
+        wx = np.arange(win[2], win[3]) if c[1] == 0 else np.arange(win[3] - 1, win[2] - 1, -1)
+        if obs["serial_overscan_array"] is not None and not same(obs["serial_overscan_array"], a[np.ix_(wy, wx)]):
+            return False, "extract_serial_overscan_array_from is not the rotated content of the region"
+        ext = _overlap_in_window(reg, win)
+        if obs["ext_region"] != ext:
+            return False, f"region after extraction {obs['ext_region']} != overlap in window coordinates {ext}"
+        if ext is not None:
+            ov = [max(reg[0], win[0]), min(reg[1], win[1]), max(reg[2], win[2]), min(reg[3], win[3])]
+            if not same(obs["ext_content"], cut(a, ov)):
+                return False, "the region after extraction does not address the overlap inside the window"
+        if not obs["input_intact"]:
+            return False, "the caller's array was modified"
+        return True, ""
+
+    def _run_large_1d(self, aa, case):
+        n = case["n"]
+        var = self._var(case)
+        vals = _relayout(self._large_values(1, n, var.get("dt", "f8")).reshape(n), var.get("lay", "C"))
+        ov = tuple(case["overscan"])
+        lay = aa.Layout1D(shape_1d=(n,), prescan=tuple(case["prescan"]), overscan=ov)
+        arr = aa.Array1D.no_mask(values=vals, pixel_scales=1.0)
+        r = aa.Region1D(region=ov)
+        fr = r.front_region_from(pixels=tuple(case["pixels"]))
+        return {"overscan": [int(v) for v in lay.overscan.region], "prescan": [int(v) for v in lay.prescan.region],
+                "overscan_array": np.asarray(lay.extract_overscan_array_1d_from(array=arr).native.array).ravel(),
+                "front": [int(v) for v in fr.region], "front_content": np.asarray(vals[fr.slice])}
+
+    def _oracle_large_1d(self, case, obs):
+        if "err" in obs:
+            return False, f"raised {obs}"
+        n = case["n"]
+        a = self._large_values(1, n, self._var(case).get("dt", "f8")).reshape(n)
+        x0, x1 = case["overscan"]
+        if obs["overscan"] != [x0, x1] or obs["prescan"] != list(case["prescan"]):
+            return False, "Layout1D changed its regions"
+        if obs["overscan_array"].shape != (x1 - x0,) or not np.array_equal(obs["overscan_array"], a[x0:x1]):
+            return False, "extract_overscan_array_1d_from is not array[x0:x1]"
+        p = case["pixels"]
+        if obs["front"] != [x0 + p[0], x0 + p[1]]:
+            return False, f"front_region_from {obs['front']} != {[x0 + p[0], x0 + p[1]]}"
+        if not np.array_equal(obs["front_content"], a[x0 + p[0]:x0 + p[1]]):
+            return False, "front region does not slice the requested pixels"
+        return True, ""
+
+    def _large_frame_cases(self, sizes, rng, tag):
+        import math
+        for s in sizes:
+            if s < 2 or s > 3_000_000:
+                continue
+            r0 = max(1, math.isqrt(s))
+            shapes = {(1, s), (s, 1), (r0, -(-s // r0)), (-(-s // 3), 3), (7, -(-s // 7))}
+            if s <= 200_000:
+                shapes |= {(s, 2), (3, s)}  # one dimension alone at the size
+            for k_s, (h, w) in enumerate(sorted(shapes)):
+                corners = CORNERS if h * w <= 300_000 else rng.sample(CORNERS, 2)
+                for k_c, c in enumerate(corners):
+                    def iv(n):
+                        k = rng.random()
+                        if n == 1:
+                            return (0, 1)
+                        if k < 0.3:
+                            return (0, rng.randint(1, n))
+                        if k < 0.6:
+                            return (rng.randint(0, n - 1), n)
+                        a_ = rng.randint(0, n - 1)
+                        return (a_, rng.randint(a_ + 1, n))
+                    ry, rx, wy, wx = iv(h), iv(w), iv(h), iv(w)
+                    yield {"tag": tag, "kind": "large_frame", "large": True, "h": h, "w": w, "corner": list(c),
+                           "region": [ry[0], ry[1], rx[0], rx[1]], "window": [wy[0], wy[1], wx[0], wx[1]],
+                           "store_native": rng.random() < 0.5,
+                           "a2d": "full" if h * w <= 20_000 or (k_c == 0 and k_s == 2 and h * w <= 300_000) else "native",
+                           "variant": {"dt": rng.choice(("f8", "f8", "i8", "f4")), "lay": rng.choice(LAYS2)}}
+            if s >= 4:
+                x0 = rng.randint(1, s // 2)
+                yield {"tag": tag + "_1d", "kind": "large_1d", "large": True, "n": s, "prescan": [0, x0],
+                       "overscan": [x0, s - rng.choice((0, 1))], "pixels": [rng.randint(0, 1), rng.randint(2, s - x0 - 1) if s - x0 - 1 >= 2 else 2],
+                       "variant": {"dt": rng.choice(("f8", "i8")), "lay": rng.choice(LAYS1)}}
+
+    def _bigcoord_cases(self, sizes, rng, tag):
+        """coordinates / extents at a given magnitude: pure integer arithmetic, compared with the model."""
+        def var():
+            return {"dt": "f8", "reg": rng.choice(("tuple", "list", "npint", "obj")),
+                    "shp": rng.choice(("tuple", "list", "npint")), "omit_defaults": False, "ctor": "a", "lay": "C"}
+        for s in sizes:
+            if s < 4:
+                continue
+            for args in ((0, s, s - 1, s + 5), (s - 1, s + 1, 0, 2 * s), (3, s + 3, 2, s), (s, 2 * s, s + 1, 2 * s + 1),
+                         (0, s, s, s + 1), (s, s + 2, 0, s)):
+                yield {"tag": tag, "kind": "x0x1", "args": list(args), "variant": var()}
+            for c in CORNERS:
+                yield {"tag": tag, "kind": "rotate_region", "h": s + 3, "w": 5, "region": [1, s + 1, 1, 4],
+                       "corner": list(c), "variant": var()}
+                yield {"tag": tag, "kind": "rotate_region", "h": 4, "w": s + 2, "region": [0, 3, 2, s + 2],
+                       "corner": list(c), "variant": var()}
+                yield {"tag": tag, "kind": "rotate_region", "h": s, "w": s + 1, "region": [s - 1, s, 0, s],
+                       "corner": list(c), "variant": var()}
+            reg = [2, 2 + s, 3, 4 + s]
+            for k in ("parallel_front", "parallel_trailing", "serial_front", "serial_trailing",
+                      "serial_towards_roe_full", "serial_x_front_range"):
+                for p in ((s - 1, s), (0, s), (s, s + 2), (1, s + 1)):
+                    yield {"tag": tag, "kind": "sub", "sub": k, "region": reg, "pixels": list(p), "from_end": None,
+                           "shape": [s + 5, s + 9], "variant": var()}
+            for k in ("parallel_front", "serial_front"):
+                for fe in (1, s - 1, s, s + 1):
+                    yield {"tag": tag, "kind": "sub", "sub": k, "region": reg, "pixels": None, "from_end": fe,
+                           "shape": [s + 5, s + 9], "variant": var()}
+            yield {"tag": tag, "kind": "sub", "sub": "parallel_full", "region": reg, "pixels": None, "from_end": None,
+                   "shape": [s + 5, s + 9], "variant": var()}
+            for k in ("front1d", "trailing1d"):
+                for p in ((s - 1, s), (0, s), (1, s + 1)):
+                    yield {"tag": tag, "kind": "sub", "sub": k, "region": [5, 5 + s], "pixels": list(p),
+                           "from_end": None, "variant": var()}
+            yield {"tag": tag, "kind": "sub", "sub": "front1d", "region": [5, 5 + s], "pixels": None, "from_end": s - 1,
+                   "variant": var()}
+            for r in ([s, s + 1, 0, s], [0, s, s, s], [s - 1, s, s, 2 * s + 1], [s + 1, s, 0, 1]):
+                yield {"tag": tag, "kind": "ctor", "dim": 2, "region": r, "variant": var()}
+            for r in ([s, s + 1], [s, s], [0, s]):
+                yield {"tag": tag, "kind": "ctor", "dim": 1, "region": r, "variant": var()}
+            yield {"tag": tag, "kind": "layout_ctor", "h": s + 1, "w": s + 2, "regions": [[s - 1, s + 1, 0, s], None, [0, s, s, s + 2]],
+                   "corner": list(rng.choice(CORNERS)), "variant": var()}
+
+    def generate_large(self, hints, rng):
+        """sizes on both sides of every new integer constant in the anchored source, in every size dimension
+        this property has: frame pixels H*W (several aspect ratios incl. 1xN, Nx1), H or W alone, rows / columns
+        of regions and windows, 1-D lengths, pixel ranges, and the magnitude of the coordinates themselves."""
+        sizes = []
+        for c in hints:
+            for s in (c - 1, c, c + 1, c + c // 3 + 1, 2 * c + 1):
+                if s not in sizes:
+                    sizes.append(s)
+        yield from self._bigcoord_cases(sizes, rng, "large_coord")
+        # small constants first: they are the cheapest and the likeliest thresholds
+        yield from self._large_frame_cases(sorted(sizes), rng, "large_frame")
+
     # ------------------------------------------------------------------ misc
     def nontrivial(self, case, obs):
         kind = case["kind"]
@@ -705,6 +1808,52 @@ class C19(PropertyCheck):
         return None
 
     def shrink(self, case):
+        if case["kind"] == "history":
+            steps = case["steps"]
+            if len(steps) > 1:
+                yield {**case, "steps": steps[:-1]}
+            for i in range(len(steps) - 1, -1, -1):
+                d = _step_def(steps[i])
+                if d is not None and any(d in _step_uses(t) for t in steps[i + 1:]):
+                    continue
+                yield {**case, "steps": steps[:i] + steps[i + 1:]}
+            for k, a in enumerate(case["arrays"]):
+                if a.get("lay", "C") != "C":
+                    arrs = list(case["arrays"])
+                    arrs[k] = {**a, "lay": "C"}
+                    yield {**case, "arrays": arrs}
+            return
+        if case.get("large"):
+            v = self._var(case)
+            if v.get("lay", "C") != "C":
+                yield {**case, "variant": {**v, "lay": "C"}}
+            if v.get("dt", "f8") != "f8":
+                yield {**case, "variant": {**v, "dt": "f8"}}
+            if case["kind"] == "large_frame":  # walk the frame down towards the size where the failure starts
+                h, w = case["h"], case["w"]
+
+                def clip(r, hh, ww):
+                    r = [min(r[0], hh - 1), min(r[1], hh), min(r[2], ww - 1), min(r[3], ww)]
+                    return r if _valid2(r) else [0, 1, 0, 1]
+
+                for hh, ww in ((h // 2, w), (h, w // 2), (h - h // 4, w), (h, w - w // 4), (h - h // 16, w),
+                               (h, w - w // 16), (h - 1, w), (h, w - 1)):
+                    if hh >= 1 and ww >= 1 and (hh, ww) != (h, w):
+                        yield {**case, "h": hh, "w": ww, "region": clip(case["region"], hh, ww),
+                               "window": clip(case["window"], hh, ww)}
+            return
+        if case["kind"] == "rotate":
+            v = self._var(case)
+            if v.get("lay", "C") not in ("C", "F"):
+                yield {**case, "variant": {**v, "lay": "F"}}
+            if v.get("lay", "C") != "C":
+                yield {**case, "variant": {**v, "lay": "C"}}
+            if v.get("dt", "f8") != "f8":
+                yield {**case, "variant": {**v, "dt": "f8"}}
+            h, w = case["h"], case["w"]
+            if case["region"] != [0, h, 0, w]:
+                yield {**case, "region": [0, h, 0, w]}
+            return
         if case["kind"] == "layout":
             for i in range(3):
                 if case["regions"][i] is not None and sum(r is not None for r in case["regions"]) > 1:
@@ -735,6 +1884,13 @@ class C19(PropertyCheck):
                        "C19.original_orientation_undoes_rotation"],
             "layout_ctor": ["C19.layout_new_iff_valid"],
             "layout1d": ["C19.region1d_rejects_iff_invalid"],
+            "history": ["C19.layout_rotated_slices_rotated_content", "C19.layout_new_rotated_slices_rotated_content",
+                        "C19.layout_rotated_twice", "C19.layout_extracted_regions",
+                        "C19.original_orientation_undoes_rotation", "C19.rotate_commutes_with_slice",
+                        "C19.region_after_extraction_eq_overlap"],
+            "large_frame": ["C19.rotate_commutes_with_slice", "C19.rotateArray_twice", "C19.rotateRegion_twice",
+                            "C19.layout_rotated_slices_rotated_content", "C19.extraction_addresses_overlap"],
+            "large_1d": ["C19.front1d_content", "C19.front1d_pixels"],
         }.get(case["kind"], ["C19.*"])
 
 
